@@ -27,6 +27,10 @@ CLAIMED = {
  'C11': mux('Theorems: C11_causal (chunks of a prefix never depend on what follows, for every operator), C11_causal_local, C11_map_chunks, C11_scan_chunks, C11_reduce_chunks, C11_take_chunks, C11_roll_prompt, C11_wrap_chunk; the position of every real output is compared with the model chunk index and with the position required by the statement.', '§7 C11', 'Lean 4 proof (chunk equations) + per-source-position differential correspondence'),
  'C12': mux('Theorems over exact rationals (the same generic accumulators the driver executes at Float): C12_sum, C12_mean, C12_variance (Welford state = exact mean and sum of squared deviations; variance 0 for fewer than two items), C12_formal, C12_stream_eq_reduce, C12_sum_rounding (|fl-sum - sum| <= ((1+u)^n - 1) * sum|x| in the standard rounding model). The forward-error bound of the variance family is NOT proved: it is decided by bit-for-bit correspondence with the Welford/two-pass model and by differential testing against exact fractions (labelled testing).', '§7 C12', 'Lean 4 proof over Q (Mathlib field_simp/ring/nlinarith) + bit-exact differential correspondence at Float + exact-rational accuracy oracle'),
  'C13': mux('Theorems: C13_map_one_error, C13_filter_one_error, C13_scan_one_error, C13_ignore_map, C13_map_err_in_place, C13_router_dead_letters, C13_unhandled; handlers after filter/scan, the dead-letter channel and interleavings by correspondence + oracle (real run without the failing items).', '§7 C13', 'Lean 4 proof + differential correspondence; oracle: real run on the input without the failing items'),
+ 'C14': dict(
+    text='Kernel-checked Lean 4 theorems over an executable L0 model of MemoryStore (parallel values/state/keys arrays, NOTSET/SET/CLEARED markers, growth, typed coercion, mapper dicts and index counter): C14_inv_new/step/run (arrays stay parallel over every history), C14_get (get reads the abstract per-index map), C14_add_fresh, C14_read_your_write, C14_del_add, C14_frame (no operation on index i changes another allocated index), C14_add_map_index, C14_indices_fresh (indices handed out over any history are pairwise distinct), C14_map_lookup; the model is tied to /repo by replaying random operation histories on the real MemoryStore / StoreManager and comparing every return value and iterate() dump.',
+    design='§7 C14', technique='Lean 4 proof (data refinement of the concrete arrays to an abstract per-index map, induction over the operation history) + differential correspondence on random histories',
+    note='Trusted: Lean kernel, propext/Classical.choice/Quot.sound, hand-written model (tested each run), CPython list/array.array/dict semantics modelled not verified.'),
  'C15': dict(
     text='Kernel-checked Lean 4 theorems (C15_line, C15_line_rechunk, C15_lp, C15_lp_incomplete, C15_prefix_roundtrip, C15_lp_frame_guard) over an executable model of line.unframe and length_prefix.unframe: for every item list, every chunking (empty chunks, cuts anywhere), every prefix size >= 1 and both byte orders the un-framer returns exactly the items; the model is tied to /repo on every run by a differential check that drives the real operators chunk by chunk and compares per-chunk outputs with the compiled model.',
     design='§7 C15', technique='Lean 4 proof by induction over the chunk list (split-over-append lemma) + differential correspondence check',
